@@ -11,8 +11,8 @@ RULE = ("kinds: step (real integrator on y'=lambda*y / damped 2x2 blocks with th
         "closed left half-plane incl. the imaginary axis; no eigenvalue of A with Re<=0 other than 0); non-trivial = step accepted; distinct by "
         "(method, |z| decade, arg class, sign of h, dtype)")
 ASSUMPTIONS = ["tolerances are scaled to 1e3*eps*max(1,|lambda|) so that the Newton iteration can converge; comparisons allow K=50 times the induced error h*tol*sum|b|"]
-FLOORS = {"quick": {"accepted_steps": 300, "accepted_steps_z_ge_1e4": 60, "tableau_points": 2000},
-          "thorough": {"accepted_steps": 3000, "accepted_steps_z_ge_1e4": 500, "tableau_points": 20000}}
+FLOORS = {"quick": {"accepted_steps": 300, "accepted_steps_z_ge_1e4": 60, "tableau_points": 2000, "usertol_steps_h_ge_1e3": 40},
+          "thorough": {"accepted_steps": 3000, "accepted_steps_z_ge_1e4": 500, "tableau_points": 20000, "usertol_steps_h_ge_1e3": 400}}
 K = 5.0
 
 
@@ -29,6 +29,10 @@ def gen_cases(tier, seed):
         cases.append(dict(kind="tableau", method=name, cost=2))
         for lz in (4.5, 6.0, 7.5):   # core battery: stiff real decay at large |z| for every method
             cases.append(dict(kind="step", method=name, logz=lz, arg=180.0, hsign=1, hmag=0.1, dtype="float64", pseed=int(rng.integers(1 << 30)), cost=3))
+        for r in range(max(4, reps // 3)):
+            # the same z reached with an enormous step and a tiny rate, under ordinary user tolerances (not scaled to lambda)
+            cases.append(dict(kind="step", method=name, logz=float(rng.uniform(0, 6)), arg=float(rng.choice([180.0, 135.0, 108.0, 252.0])), hsign=int(rng.choice([-1, 1])),
+                              hmag=float(10 ** rng.uniform(1, 16)), dtype="float64", usertol=float(rng.choice([1e-6, 1e-9])), pseed=int(rng.integers(1 << 30)), cost=3))
         for r in range(reps):
             logz = float(rng.uniform(-3, 8))
             ang = float(rng.choice([180.0, 180.0, 90.0, 270.0, float(rng.uniform(90, 270))]))
@@ -112,6 +116,10 @@ def run_case(spec):
     def jac(t, y, **kw):
         return Amat
     tol = max(1e3 * eps * max(1.0, lam_abs), 1e3 * eps)
+    usertol = spec.get("usertol")
+    if usertol:
+        tol = usertol
+        feats["tolerance"] = "user"
     intg = cls(y0.shape, dtype=dt, rtol=tol, atol=tol)
     util.passthrough_adaptation(intg)
     slog = StepLog(intg)
@@ -131,6 +139,13 @@ def run_case(spec):
     Rabs = float(abs(R))
     sb = float(np.sum(np.abs(cls.tableau_final[0, 1:])))
     slack = K * (abs(hacc) * tol * sb * np.sqrt(len(y0)) / float(np.sqrt(np.sum(y0 ** 2))) + 64 * eps * info["stages"])
+    slack_h = slack
+    if usertol:
+        # under a user tolerance the accepted STATE must be right to that tolerance whatever the step size: no factor |h|
+        slack = K * (tol * sb * np.sqrt(len(y0)) / float(np.sqrt(np.sum(y0 ** 2))) + 64 * eps * info["stages"])
+        rec.bump("usertol_steps")
+        if abs(hacc) >= 1e3:
+            rec.bump("usertol_steps_h_ge_1e3")
     rec.bump("accepted_steps")
     if abs(zacc) >= 1e4:
         rec.bump("accepted_steps_z_ge_1e4")
@@ -140,10 +155,18 @@ def run_case(spec):
     rec.worst("growth_minus_one_over_slack", (ratio - 1.0) / slack)
     rec.worst("ratio_vs_R_over_slack", abs(ratio - Rabs) / slack)
     rec.sample = {"spec": spec, "z_accepted": [zacc.real, zacc.imag], "ratio": ratio, "abs_R": Rabs, "attempts": len(slog.attempts)}
+    def mech(default, excess):
+        # attribution: the stage equations are solved to an ABSOLUTE tolerance on the stage slopes (0.5*(atol+rtol|y|)) that is not
+        # divided by the step, so the state error can reach |h| times the tolerance
+        if usertol and abs(hacc) > 1 and excess <= 10 * slack_h:
+            return "stage_tolerance_not_scaled_by_step_size"
+        return default
     if ratio > 1.0 + slack:
-        rec.violate("stiff_decay_growth", "accepted_step_increases_norm_on_decaying_problem", feats, ratio=ratio, z=[zacc.real, zacc.imag], slack=slack, abs_R=Rabs)
+        rec.violate("stiff_decay_growth", mech("accepted_step_increases_norm_on_decaying_problem", ratio - 1.0), feats, ratio=ratio, z=[zacc.real, zacc.imag], slack=slack, abs_R=Rabs,
+                    h=hacc, tol=tol)
     if abs(ratio - Rabs) > slack:
-        rec.violate("stability_function_mismatch", "step_disagrees_with_stability_function_of_tableau", feats, ratio=ratio, abs_R=Rabs, z=[zacc.real, zacc.imag], slack=slack)
+        rec.violate("stability_function_mismatch", mech("step_disagrees_with_stability_function_of_tableau", abs(ratio - Rabs)), feats, ratio=ratio, abs_R=Rabs, z=[zacc.real, zacc.imag],
+                    slack=slack, h=hacc, tol=tol)
     return rec.out()
 
 
